@@ -746,5 +746,172 @@ theorem random_radius_contained (a : Axis K) (c : GridClass) (hw : a.WF c) (hnu 
   obtain ⟨h1, h2⟩ := radial_draw_in_bounds d hd _ _ r u (h0.trans hmin) hle hr hu0 hu1 e
   exact cell_coord_in_range a.lo a.hi a.n hw.2.1 hw.1 r (hmin.trans h1) (h2.trans hmax)
 
+/-! ### 4. normalize_point: periodic wrap and reflection -/
+
+/-- the model's `x % L` is Mathlib's `toIcoMod` with base point 0 -/
+theorem pymod_eq_toIcoMod (x L : K) (hL : 0 < L) : pymod x L = toIcoMod hL 0 x := by
+  unfold pymod toIcoMod
+  rw [toIcoDiv_eq_floor, floor_def, sub_zero, zsmul_eq_mul, mul_comm]
+
+theorem pymod_range (x L : K) (hL : 0 < L) : 0 ≤ pymod x L ∧ pymod x L < L := by
+  rw [pymod_eq_toIcoMod x L hL]
+  have := toIcoMod_mem_Ico hL 0 x
+  rw [zero_add] at this
+  exact this
+
+theorem pymod_add_period (x L : K) (hL : 0 < L) (k : ℤ) : pymod (x + k * L) L = pymod x L := by
+  rw [pymod_eq_toIcoMod _ L hL, pymod_eq_toIcoMod _ L hL, ← zsmul_eq_mul, toIcoMod_add_zsmul]
+
+/-- characterisation: the unique representative in `[0, L)` -/
+theorem pymod_eq_iff (x L c : K) (hL : 0 < L) :
+    pymod x L = c ↔ (0 ≤ c ∧ c < L) ∧ ∃ z : ℤ, x = c + z * L := by
+  rw [pymod_eq_toIcoMod x L hL, toIcoMod_eq_iff, zero_add]
+  simp only [Set.mem_Ico, zsmul_eq_mul]
+
+/-- on a periodic axis `normalize_point` is `toIcoMod` onto `[lo, hi)` -/
+theorem normalize_eq_toIcoMod (lo hi x : K) (h : lo < hi) (reflect : Bool) :
+    normAxis lo hi true reflect x = toIcoMod (sub_pos.mpr h) lo x := by
+  unfold normAxis
+  rw [if_pos rfl, pymod_eq_toIcoMod _ _ (sub_pos.mpr h), toIcoMod_sub_eq_sub, zero_add, sub_add_cancel]
+
+/-- **C12** a normalised coordinate of a periodic axis lies in the domain `[lo, hi)` -/
+theorem normalize_in_domain (lo hi x : K) (h : lo < hi) (reflect : Bool) :
+    lo ≤ normAxis lo hi true reflect x ∧ normAxis lo hi true reflect x < hi := by
+  rw [normalize_eq_toIcoMod lo hi x h]
+  have := toIcoMod_mem_Ico (sub_pos.mpr h) lo x
+  rw [add_sub_cancel] at this
+  exact this
+
+/-- **C12** normalising twice is normalising once -/
+theorem normalize_idempotent (lo hi x : K) (h : lo < hi) (reflect : Bool) :
+    normAxis lo hi true reflect (normAxis lo hi true reflect x) = normAxis lo hi true reflect x := by
+  rw [normalize_eq_toIcoMod lo hi _ h, normalize_eq_toIcoMod lo hi x h, toIcoMod_toIcoMod]
+
+/-- **C12** normalising moves a coordinate by a whole number of periods -/
+theorem normalize_moves_by_periods (lo hi x : K) (h : lo < hi) (reflect : Bool) :
+    ∃ k : ℤ, normAxis lo hi true reflect x = x + k * (hi - lo) := by
+  rw [normalize_eq_toIcoMod lo hi x h]
+  refine ⟨-toIcoDiv (sub_pos.mpr h) lo x, ?_⟩
+  have := self_sub_toIcoMod (sub_pos.mpr h) lo x
+  rw [zsmul_eq_mul] at this
+  push_cast; linarith
+
+/-- points of the domain are not moved, and period images are identified -/
+theorem normalize_fixes_domain (lo hi x : K) (h : lo < hi) (reflect : Bool) (h1 : lo ≤ x) (h2 : x < hi) :
+    normAxis lo hi true reflect x = x := by
+  rw [normalize_eq_toIcoMod lo hi x h, toIcoMod_eq_self]
+  exact ⟨h1, by rw [add_sub_cancel]; exact h2⟩
+
+theorem normalize_period_shift (lo hi x : K) (h : lo < hi) (reflect : Bool) (k : ℤ) :
+    normAxis lo hi true reflect (x + k * (hi - lo)) = normAxis lo hi true reflect x := by
+  rw [normalize_eq_toIcoMod lo hi _ h, normalize_eq_toIcoMod lo hi x h, ← zsmul_eq_mul, toIcoMod_add_zsmul]
+
+/-- without periodicity and without `reflect` nothing happens -/
+theorem normalize_noop (lo hi x : K) : normAxis lo hi false false x = x := by
+  simp [normAxis]
+
+theorem absK_eq_abs (x : K) : absK x = |x| := by
+  unfold absK
+  simp only [Nat.cast_zero]
+  split_ifs with h
+  · exact (abs_of_neg h).symm
+  · exact (abs_of_nonneg (not_lt.mp h)).symm
+
+/-- **C12** a reflected coordinate lies in the closed domain `[lo, hi]` -/
+theorem reflect_in_domain (lo hi x : K) (h : lo < hi) :
+    lo ≤ normAxis lo hi false true x ∧ normAxis lo hi false true x ≤ hi := by
+  have hL : 0 < 2 * (hi - lo) := by linarith
+  obtain ⟨h1, h2⟩ := pymod_range (x - hi) (2 * (hi - lo)) hL
+  simp only [normAxis, Bool.false_eq_true, if_false, if_true, absK_eq_abs, Nat.cast_ofNat]
+  have : |pymod (x - hi) (2 * (hi - lo)) - (hi - lo)| ≤ hi - lo := by
+    rw [abs_le]; constructor <;> linarith
+  constructor
+  · linarith [abs_nonneg (pymod (x - hi) (2 * (hi - lo)) - (hi - lo))]
+  · linarith
+
+/-- points of the closed domain are not moved by the reflection -/
+theorem reflect_fixes_domain (lo hi x : K) (h : lo < hi) (h1 : lo ≤ x) (h2 : x ≤ hi) :
+    normAxis lo hi false true x = x := by
+  have hL : 0 < 2 * (hi - lo) := by linarith
+  simp only [normAxis, Bool.false_eq_true, if_false, if_true, absK_eq_abs, Nat.cast_ofNat]
+  rcases eq_or_lt_of_le h2 with rfl | hlt
+  · have : pymod (x - x) (2 * (x - lo)) = 0 := by
+      rw [pymod_eq_iff _ _ _ hL]; exact ⟨⟨le_refl _, hL⟩, 0, by simp⟩
+    rw [this, zero_sub, abs_neg, abs_of_pos (by linarith)]; ring
+  · have : pymod (x - hi) (2 * (hi - lo)) = x - hi + 2 * (hi - lo) := by
+      rw [pymod_eq_iff _ _ _ hL]
+      exact ⟨⟨by linarith, by linarith⟩, -1, by push_cast; ring⟩
+    rw [this, abs_of_nonneg (by linarith)]; ring
+
+/-- **C12** reflecting twice is reflecting once -/
+theorem reflect_idempotent (lo hi x : K) (h : lo < hi) :
+    normAxis lo hi false true (normAxis lo hi false true x) = normAxis lo hi false true x := by
+  obtain ⟨h1, h2⟩ := reflect_in_domain lo hi x h
+  exact reflect_fixes_domain lo hi _ h h1 h2
+
+/-- the reflected coordinate is the image of `x` under a translation by an even number of domain
+lengths, possibly composed with the reflection about `lo` (mirror images of the domain) -/
+theorem reflect_moves_by_reflections (lo hi x : K) :
+    ∃ k : ℤ, normAxis lo hi false true x = x + k * (2 * (hi - lo)) ∨
+      normAxis lo hi false true x = 2 * lo - x + k * (2 * (hi - lo)) := by
+  simp only [normAxis, Bool.false_eq_true, if_false, if_true, absK_eq_abs, Nat.cast_ofNat, pymod, floor_def]
+  set f : ℤ := ⌊(x - hi) / (2 * (hi - lo))⌋ with hf
+  by_cases hy : 0 ≤ x - hi - 2 * (hi - lo) * (f : K) - (hi - lo)
+  · refine ⟨-1 - f, Or.inl ?_⟩
+    rw [abs_of_nonneg hy]; push_cast; ring
+  · refine ⟨1 + f, Or.inr ?_⟩
+    rw [abs_of_neg (not_le.mp hy)]; push_cast; ring
+
+/-- whole points: `grid.normalize_point` puts every periodic coordinate into `[lo, hi)`, every
+other coordinate into `[lo, hi]` when `reflect` is set, and leaves the rest alone -/
+theorem normalizePoint_in_domain (g : Grid K) (h : ∀ a ∈ g.axes, a.lo < a.hi) (reflect : Bool)
+    (p : List K) :
+    ∀ q ∈ g.axes.zip (g.normalizePoint reflect p),
+      (q.1.periodic = true → q.1.lo ≤ q.2 ∧ q.2 < q.1.hi) ∧
+      (q.1.periodic = false → reflect = true → q.1.lo ≤ q.2 ∧ q.2 ≤ q.1.hi) := by
+  unfold Grid.normalizePoint
+  generalize g.axes = as at h
+  induction as generalizing p with
+  | nil => simp
+  | cons a as ih =>
+    cases p with
+    | nil => simp
+    | cons x xs =>
+      intro q hq
+      simp only [List.zipWith_cons_cons, List.zip_cons_cons, List.mem_cons] at hq
+      rcases hq with rfl | hq
+      · have hlt := h a List.mem_cons_self
+        refine ⟨fun hp => ?_, fun hp hr => ?_⟩
+        · have hp' : a.periodic = true := hp
+          show a.lo ≤ normAxis a.lo a.hi a.periodic reflect x ∧ normAxis a.lo a.hi a.periodic reflect x < a.hi
+          rw [hp']; exact normalize_in_domain a.lo a.hi x hlt reflect
+        · have hp' : a.periodic = false := hp
+          show a.lo ≤ normAxis a.lo a.hi a.periodic reflect x ∧ normAxis a.lo a.hi a.periodic reflect x ≤ a.hi
+          rw [hp', hr]; exact reflect_in_domain a.lo a.hi x hlt
+      · exact ih xs (fun b hb => h b (List.mem_cons_of_mem _ hb)) q hq
+
+theorem normAxis_idem (lo hi x : K) (h : lo < hi) (per reflect : Bool) :
+    normAxis lo hi per reflect (normAxis lo hi per reflect x) = normAxis lo hi per reflect x := by
+  cases per
+  · cases reflect
+    · simp [normAxis]
+    · exact reflect_idempotent lo hi x h
+  · exact normalize_idempotent lo hi x h reflect
+
+/-- whole points: normalising is idempotent on every grid (any class, dimension, flags) -/
+theorem normalizePoint_idempotent (g : Grid K) (h : ∀ a ∈ g.axes, a.lo < a.hi) (reflect : Bool)
+    (p : List K) :
+    g.normalizePoint reflect (g.normalizePoint reflect p) = g.normalizePoint reflect p := by
+  unfold Grid.normalizePoint
+  generalize g.axes = as at h
+  induction as generalizing p with
+  | nil => simp
+  | cons a as ih =>
+    cases p with
+    | nil => simp
+    | cons x xs =>
+      simp only [List.zipWith_cons_cons, normAxis_idem a.lo a.hi x (h a List.mem_cons_self),
+        ih xs (fun b hb => h b (List.mem_cons_of_mem _ hb))]
+
 end
 end PdeVerif.Grids
